@@ -55,7 +55,8 @@ REQUIRED = ["union_volume_checked", "level1_checked", "level2_checked", "levels_
             "tangent_neighbours", "disjoint_neighbours", "growing_radii", "tapering_radii",
             "frontend_checked", "named_levels_checked", "same_skeleton_other_radii",
             "zero_radius_tips", "far_exact_layouts", "other_length_units",
-            "levels_as_numpy_integers", "failed_calls_before_measuring", "lattice_directions"]
+            "levels_as_numpy_integers", "failed_calls_before_measuring", "lattice_directions",
+            "frontend_other_request_spellings"]
 FLOOR = {"quick": 500, "thorough": 20000}
 SHARDS = {"quick": 8, "thorough": 16}
 TIMEOUT = {"quick": 400, "thorough": 3000}
@@ -264,6 +265,19 @@ def _failed_call_first(ctx, acc):
         ctx.count("failed_calls_before_measuring")
 
 
+def _frontend_volume(ctx, fe, acc_arg, salt):
+    """extract_feature(tree).get('volume', ...) in each of the documented request spellings."""
+    form = salt % 4
+    if form == 0:
+        return float(fe.get("volume", accuracy=acc_arg)[0])
+    ctx.count("frontend_other_request_spellings")
+    if form == 1:
+        return float(fe.get(("volume", {"accuracy": acc_arg}))[0])
+    if form == 2:
+        return float(fe.get([("volume", {"accuracy": acc_arg})])[0][0])
+    return float(fe.get({"volume": {"accuracy": acc_arg}})["volume"][0])
+
+
 def exec_union(ctx, case):
     from swcgeom.analysis import extract_feature
     from swcgeom.analysis.volume import get_volume
@@ -307,7 +321,8 @@ def exec_union(ctx, case):
         acc_arg = _level(ctx, acc, case["seed"] + (acc if isinstance(acc, int) else 0))
         try:
             if case.get("frontend"):
-                got = float(fe.get("volume", accuracy=acc_arg)[0])
+                got = _frontend_volume(ctx, fe, acc_arg, case["seed"] // 7 + (
+                    acc if isinstance(acc, int) else 0))
                 ctx.count("frontend_checked")
             else:
                 got = float(get_volume(tree, accuracy=acc_arg))
@@ -392,7 +407,7 @@ def exec_sums(ctx, case):
         acc_arg = _level(ctx, acc, case["tree"]["seed"] + acc)
         try:
             if case.get("frontend"):
-                got = float(fe.get("volume", accuracy=acc_arg)[0])
+                got = _frontend_volume(ctx, fe, acc_arg, case["tree"]["seed"] // 7 + acc)
                 ctx.count("frontend_checked")
             else:
                 got = float(get_volume(tree, accuracy=acc_arg))
